@@ -173,6 +173,14 @@ let dispatch cmd r =
       out_list (List.concat_map (fun q -> let q = qred q in [q.qnum; Zpos q.qden]) res)
   | "center_geom" -> let b = next_z r in let dims = next_list r in
       (match center_geom dims b with Some g -> out_list (List.concat_map (fun (ns, d) -> [ns; d]) g) | None -> "OK none")
+  | "shift1" -> let order = next_z r in let mode = next_z r in let s = next_q r in let n = next_int r in
+      let l = List.init n (fun _ -> next_q r) in
+      out_list (List.concat_map (fun q -> let q = qred q in [q.qnum; Zpos q.qden]) (shift1 order mode l s))
+  | "zoom1" -> let order = next_z r in let mode = next_z r in let nout = next_z r in let n = next_int r in
+      let l = List.init n (fun _ -> next_q r) in
+      out_list (List.concat_map (fun q -> let q = qred q in [q.qnum; Zpos q.qden]) (zoom1 order mode l nout))
+  | "spline_weights" -> let order = next_z r in let x = next_q r in
+      out_list (List.concat_map (fun q -> let q = qred q in [q.qnum; Zpos q.qden]) (spline_weights order x))
   | _ -> failwith ("unknown command " ^ cmd)
 
 let () =
